@@ -187,6 +187,36 @@ SegmentRoll(p) ==
   /\ Log([a |-> "roll", p |-> p, exp |-> Obs(cur)])
   /\ UNCHANGED <<snap, comp, cur, ncomp, ncrash>>
 
+\* the active segment is full and the entry that does not fit is a TOMBSTONE: the new segment starts with it and holds no
+\* insert entry (openSegments must then find the max series id in an older segment)
+DeleteRoll(id) ==
+  /\ nops < MaxOps /\ nroll < MaxRolls
+  /\ id \in KeyIDs /\ PartOfID(id) \in Parts
+  /\ LET p == PartOfID(id)
+         cur1 == [k \in Keys |-> IF cur[k] = id THEN 0 ELSE cur[k]]
+     IN /\ ~IsDeleted(mem[p], snap[p], id)
+        /\ segs[p][Len(segs[p])] # <<>>
+        /\ segs' = [segs EXCEPT ![p] = Append(@, <<Tomb(id)>>)]
+        /\ mem' = [mem EXCEPT ![p].tombs = @ \cup {id}]
+        /\ cur' = cur1
+        /\ Log([a |-> "deleteroll", id |-> id, exp |-> Obs(cur1)])
+  /\ nroll' = nroll + 1
+  /\ UNCHANGED <<snap, seq, comp, issued, ncomp, ncrash>>
+
+\* crash right after the roll-over: the new segment file exists (created, synced, renamed) but the entry that did not
+\* fit never reached it; volatile state is lost and the file is opened again with an EMPTY newest segment
+CrashRoll(p) ==
+  /\ nops < MaxOps /\ nroll < MaxRolls /\ ncrash < MaxCrashes
+  /\ segs[p][Len(segs[p])] # <<>>
+  /\ LET ss1 == [segs EXCEPT ![p] = Append(@, <<>>)]
+     IN /\ segs' = ss1
+        /\ seq' = [q \in Parts |-> OpenSeq(q, ss1[q])]
+        /\ mem' = [q \in Parts |-> OpenMem(ss1[q], snap[q])]
+  /\ comp' = [q \in Parts |-> NoComp]
+  /\ nroll' = nroll + 1 /\ ncrash' = ncrash + 1
+  /\ Log([a |-> "crashroll", p |-> p, exp |-> Obs(cur)])
+  /\ UNCHANGED <<snap, cur, issued, ncomp>>
+
 \* SeriesPartitionCompactor.Compact, first critical section (RLock): clone segments + index
 Clone(p) == [on |-> TRUE, tombs |-> mem[p].tombs, i2o |-> mem[p].i2o, maxOff |-> mem[p].maxOff, snap |-> snap[p]]
 \* compactIndexTo: every insert entry up to the cloned maxOffset; header = the LAST insert processed; deleted ids skipped
@@ -287,6 +317,8 @@ CrashCreate(batch) ==
 IDSpace == 1..(N * (Prefill + (MaxOps + 2) * MaxBatch + MaxRolls + 2))
 Next == \/ \E b \in Batches : CreateList(b)
         \/ \E id \in IDSpace : Delete(id)
+        \/ \E id \in IDSpace : DeleteRoll(id)
+        \/ \E p \in Parts : CrashRoll(p)
         \/ \E p \in Parts : SegmentRoll(p) \/ CompactBegin(p) \/ CompactEnd(p) \/ CompactAtomic(p)
         \/ Reopen
         \/ \E b \in Batches : CrashCreate(b)
@@ -303,7 +335,7 @@ Injective == \A k1, k2 \in Keys : (k1 # k2 /\ cur[k1] # 0) => cur[k1] # cur[k2]
 IdsInPartition == \A k \in Keys : cur[k] # 0 => PartOfID(cur[k]) = Part(k)
 \* a key keeps its id until exactly that id is deleted (covers reopen, compaction and CrashPreservesCreated)
 StableID == [][\A k \in Keys : (cur[k] # 0 /\ cur'[k] # cur[k]) =>
-                    (cur'[k] = 0 /\ hist'[Len(hist')].a = "delete" /\ hist'[Len(hist')].id = cur[k])]_vars
+                    (cur'[k] = 0 /\ hist'[Len(hist')].a \in {"delete", "deleteroll"} /\ hist'[Len(hist')].id = cur[k])]_vars
 \* an id handed to a key is one that was never exposed before; exposed ids are never forgotten
 NeverReused == [][/\ issued \subseteq issued'
                   /\ \A k \in Keys : (cur'[k] # cur[k] /\ cur'[k] # 0) => (cur'[k] \notin issued /\ cur'[k] \in issued')]_vars
